@@ -24,7 +24,7 @@ func (x *Engine) mayPanic(fr *Frame, st *State, cond, origin string) {
 }
 
 func (x *Engine) nilCheck(fr *Frame, st *State, v Val, what string, pos token.Pos) {
-	if v.Fresh || v.Addr != nil || strings.HasPrefix(v.T, "gref_") || strings.HasPrefix(v.T, "(emb_") || strings.HasPrefix(v.T, "(eref ") {
+	if v.Fresh || v.Addr != nil || strings.HasPrefix(v.T, "gref_") || v.Emb || strings.HasPrefix(v.T, "(eref ") {
 		return
 	}
 	x.mayPanic(fr, st, fmt.Sprintf("(= %s 0)", v.T), "nil["+what+"]@"+posOf(x.prog, pos))
@@ -102,7 +102,7 @@ func (x *Engine) step(fr *Frame, st *State, ins ssa.Instruction, in map[*ssa.Bas
 		f := stt.Field(i.Field)
 		x.nilCheck(fr, st, b, f.Name(), i.Pos())
 		if _, inl := structOf(f.Type()); inl {
-			fr.vals[i] = Val{T: x.name("er", "Int", x.embRef(owner, f, b.T)), Typ: i.Type(), Fresh: b.Fresh}
+			fr.vals[i] = Val{T: x.name("er", "Int", x.embRef(owner, f, b.T)), Typ: i.Type(), Fresh: b.Fresh, Emb: true}
 		} else {
 			key := x.fieldKey(owner, f)
 			fr.vals[i] = Val{T: "(faddr 0)", Typ: i.Type(), Addr: &Addr{Kind: "field", Key: key, Ref: b.T}, Fresh: b.Fresh}
